@@ -96,7 +96,8 @@ func r01_6(c *Ctx) {
 	}
 	for _, fn := range sites {
 		n := 0
-		eachInstr(fn, func(in ssa.Instruction) {
+		fn := fn
+		eachInstrDeep(fn, func(in ssa.Instruction) {
 			call, ok := in.(*ssa.Call)
 			if !ok {
 				return
@@ -107,7 +108,7 @@ func r01_6(c *Ctx) {
 			default:
 				return
 			}
-			if !inFieldCase(fn, "retry", call.Block()) {
+			if lb, ok := liftBlock(call.Block(), fn); !ok || !inFieldCase(fn, "retry", lb) {
 				return
 			}
 			n++
@@ -124,7 +125,11 @@ func r01_6(c *Ctx) {
 			}
 			// otherwise a digits-only test of the same value must guard the parse
 			guarded := false
-			for _, ifi := range ifsIn(fn) {
+			var ifs []*ssa.If
+			for _, fnc := range enclosingChain(call.Block(), fn) {
+				ifs = append(ifs, ifsIn(fnc)...)
+			}
+			for _, ifi := range ifs {
 				op, k, succ, ok := cmpConstEdge(ifi, func(v ssa.Value) bool {
 					ic, ok := isStaticCall(v, "strings.IndexFunc")
 					if !ok {
@@ -419,36 +424,43 @@ func r01_1(c *Ctx) {
 	checkPrefix("(*Message).writeRetry", rtV+": ", firstWrite)
 	// chunk.WriteTo: phi(data, comment) selected by isComment
 	if cw := P.Fn("(*chunk).WriteTo"); cw != nil {
-		var first ssa.Value
-		eachInstr(cw, func(in ssa.Instruction) {
-			if ci, ok := isInvoke(in, "", "", "Write"); ok && first == nil {
-				first = ci.Common().Args[0]
-			}
-		})
-		okSel := false
-		if phi, ok := first.(*ssa.Phi); ok && len(phi.Edges) == 2 {
-			vals := map[string]bool{}
-			for i, e := range phi.Edges {
-				a, ok := loadedFrom(e)
-				g, isG := a.(*ssa.Global)
-				if !ok || !isG {
-					continue
-				}
-				s, ok := globalBytesInit(P, g)
-				if !ok {
-					continue
-				}
-				pred := phi.Block().Preds[i]
-				isCm := guardedByBool(cw, pred, func(v ssa.Value) bool { _, ok := isFieldLoad(v, "chunk", "isComment"); return ok }, true)
-				if s == ": " && isCm {
-					vals["comment"] = true
-				}
-				if s == dtV+": " && !isCm {
-					vals["data"] = true
-				}
-			}
-			okSel = vals["comment"] && vals["data"]
+		// path-wise: the first write of every path is ": " on a path that established isComment and
+		// "data: " on a path that established !isComment
+		okSel := true
+		seen := map[string]bool{}
+		isCmV := func(v ssa.Value) bool { _, ok := isFieldLoad(v, "chunk", "isComment"); return ok }
+		paths, okP := abstractPaths(cw, 4096, func(ssa.Value) (bool, bool) { return false, false })
+		if !okP {
+			okSel = false
 		}
+		for _, p := range paths {
+			var first ssa.Value
+			for _, in := range p.Instrs {
+				if ci, ok := isInvoke(in, "", "", "Write"); ok {
+					first = p.St.resolve(ci.Common().Args[0])
+					break
+				}
+			}
+			if first == nil {
+				continue
+			}
+			a, ok := loadedFrom(first)
+			g, isG := a.(*ssa.Global)
+			if !ok || !isG {
+				okSel = false
+				break
+			}
+			s, ok := globalBytesInit(P, g)
+			switch {
+			case ok && s == ": " && pathEstablishes(p.St, factBool(isCmV, true)):
+				seen["comment"] = true
+			case ok && s == dtV+": " && pathEstablishes(p.St, factBool(isCmV, false)):
+				seen["data"] = true
+			default:
+				okSel = false
+			}
+		}
+		okSel = okSel && seen["comment"] && seen["data"]
 		c.check(okSel, fnLabel(cw)+":prefix", P.pos(cw.Pos()), "chunks are written with \"data: \" and comments with \": \"", "chunk.WriteTo does not select \"data: \" for data and \": \" for comments")
 	} else {
 		c.anchor("(*chunk).WriteTo")
@@ -1448,6 +1460,9 @@ func r01_9crlf(c *Ctx) {
 	ni := P.Fn("parser.NewlineIndex")
 	if ni == nil || len(ni.Params) != 1 {
 		c.anchor("parser.NewlineIndex")
+		return
+	}
+	if newlineIndexLib(c, ni, "crlf") {
 		return
 	}
 	rets := returnsOf(ni)
